@@ -59,10 +59,11 @@ def run(tier, rng, C):
     n = 4000 if tier == 'quick' else 120000
     for _ in range(n):
         stacks.append(const_stack(rng))
+    stacks += MC.nested_sequences(rng, 1500 if tier == 'quick' else 40000, markers=('', '', '=', '=', '~'))
     cases = MC.build_cases(C, stacks)
     for c in cases:
         c['nontrivial'] = V.has_marker(c['layers'], '=') and V.has_shared_key(c['layers'])
     rule = ('exhaustive kind stacks containing a constant marker (top level and nested) + %d random stacks with =k at a random '
             'layer and depth 0-2, later writers plain/~/=/null/other-key, enclosing mapping replaced by null or override; '
-            'non-trivial = a constant marker and a key defined by >= 2 layers; oracle = extracted Spec/DeepMerge.v' % n)
+            'non-trivial = a constant marker and a key defined by >= 2 layers; plus sequences of 3-5 layers giving one nested key values of random kinds (nulls, empty containers); oracle = extracted Spec/DeepMerge.v' % n)
     return C.standard_run(cases, rule, key_fn=lambda c, m, i, r: 'model-impl-differ', extra_oracle=MC.spec_oracle(C))
